@@ -64,6 +64,7 @@ def items(tier):
     zoo = [
         ("einsum-dot", dict(mod="einsum", expr="dot2")),
         ("einsum-outer", dict(mod="einsum", expr="outer11")),
+        ("einsum-matvec", dict(mod="einsum", expr="matvec")),
         ("einsum-dot-cplx", dict(mod="einsum", expr="dot1", cplx=[True, True])),
         ("math-poly", dict(mod="mathgeneral", expr="poly")),
         ("math-trig", dict(mod="mathgeneral", expr="trig1")),
@@ -306,8 +307,22 @@ def scenario(V, P, cfg):
     k = 0
     for i, s in enumerate(ins):
         xs = dense_entries(s.state)
-        xflat = list(np.asarray(xs, dtype=object).flat) if np.ndim(xs) else [xs]
-        idxs = list(np.ndindex(*np.shape(xs))) if np.ndim(xs) else [()]
+        if np.ndim(xs):
+            # finite_difference walks an array with np.nditer, i.e. in MEMORY order (a transposed view column by column);
+            # the property does not fix an order, so the expected sequence follows the array's own layout
+            st_arr = s.state if isinstance(s.state, np.ndarray) else np.asarray(xs)
+            try:
+                it_ = np.nditer(st_arr, flags=["multi_index", "refs_ok"])
+                idxs = []
+                while not it_.finished:
+                    idxs.append(tuple(it_.multi_index))
+                    it_.iternext()
+            except Exception:
+                idxs = list(np.ndindex(*np.shape(xs)))
+            xarr = np.asarray(xs, dtype=object)
+            xflat = [xarr[i_] for i_ in idxs]
+        else:
+            xflat, idxs = [xs], [()]
         for e, idx in zip(xflat, idxs):
             is_zero = (not isinstance(e, (R, C))) and e == 0
             if is_zero and cfg.get("keep_zero", True) and np.ndim(xs):
